@@ -174,10 +174,19 @@ def _assemble(f: FunctionInfo, var: str, ref_set: bool, proj_set: bool, ref_para
         return CircRec([Rec("Gate", {"name": label, "target": [0], "control": None, "parameter": "", "is_variational": False})])
     env = {"self.ref_state": (mk("R") if ref_set else None), "self.reference_circuit": (mk("R") if ref_set else CircRec([])),
            "self.ansatz.circuit": mk("A"), "self.projective_circuit": (mk("P") if proj_set else None), "self.deflation_circuits": []}
-    if ref_param:
-        env[ref_param] = None
     env["self"] = Rec("VQESolver", {})
     fo = Folder(env=env, ctors=dict(CTORS))
+    if ref_param:
+        # the entry point is evaluated without an explicit reference argument: the parameter takes its default value
+        a = f.node.args
+        names = [x.arg for x in a.args]
+        dflt = dict(zip(names[len(names) - len(a.defaults):], a.defaults)).get(ref_param)
+        if dflt is None:
+            raise AnalysisError(f"{f.ref}: parameter {ref_param} has no default")
+        try:
+            fo.env[ref_param] = fo.expr(dflt)
+        except (Undecidable, Raised) as e:
+            raise AnalysisError(f"{f.ref}: default of {ref_param} not foldable: {e}")
     seen = False
     for st in f.node.body:
         names_w = {norm(t) for n in ast.walk(st) if isinstance(n, (ast.Assign, ast.AugAssign)) for t in (n.targets if isinstance(n, ast.Assign) else [n.target])}
